@@ -38,7 +38,7 @@ package queue
 //@   props C20 C12
 //@   arith wrap
 //@   requires ValWf(v)
-//@   modifies v.v.Timestamp.Timestamp
+//@   modifies v.v.Timestamp.Timestamp, ghost draws, ghost lastDraw
 //@   ensures [needs-a-valid-timestamp-config C20] res0 == nil <==> old(v.v.Timestamp != nil && v.v.Timestamp.Timestamp >= 0 && v.v.Timestamp.DeltaMin >= 0 && v.v.Timestamp.DeltaMin <= v.v.Timestamp.DeltaMax
 //@     && !(v.v.Timestamp.DeltaMin == 0 && v.v.Timestamp.DeltaMax == 9223372036854775807))
 // (as long as the int64 timestamp itself does not overflow; when it does the wrapped, negative timestamp makes the NEXT step fail with an error)
@@ -53,15 +53,39 @@ package queue
 //@   props C20 C12
 //@   arith wrap
 //@   requires ValWf(v)
-//@   modifies v.v.Value.(*fpb.Value_IntValue).IntValue.Value, heap(fpb.IntList.Options), elems(IntVal(v).Distribution.(*fpb.IntValue_List).List.Options)
+//@   modifies v.v.Value.(*fpb.Value_IntValue).IntValue.Value, heap(fpb.IntList.Options), elems(IntVal(v).Distribution.(*fpb.IntValue_List).List.Options), ghost draws, ghost lastDraw
 //@   ensures [stays-in-range C20] res0 == nil && isa(v.v.Value.(*fpb.Value_IntValue)) && isa(IntVal(v).Distribution.(*fpb.IntValue_Range)) ==>
 //@     IntVal(v).Value >= IntRng(v).Minimum && IntVal(v).Value <= IntRng(v).Maximum
+// What the next value is, case by case (the draw is the generator's next pseudo-random number).
+//@   ensures [needs-an-int-value C20] !isa(v.v.Value.(*fpb.Value_IntValue)) || old(IntVal(v)) == nil ==> res0 != nil && draws == old(draws)
+//@   ensures [range-must-be-valid C20] IsIntRange(v) ==> (res0 == nil <==> old(IntRangeOK(v)))
+//@   ensures [unchanged-on-error C20] res0 != nil && isa(v.v.Value.(*fpb.Value_IntValue)) && old(IntVal(v)) != nil ==> IntVal(v).Value == old(IntVal(v).Value) && draws == old(draws)
+//@   ensures [uniform-over-the-range C20] IsIntRange(v) && res0 == nil && IntRng(v).DeltaMin == 0 && IntRng(v).DeltaMax == 0
+//@     ==> draws == old(draws) + 1 && IntVal(v).Value == IntRng(v).Minimum + lastDraw
+//@   ensures [random-walk-clamped-to-the-range C20] IsIntRange(v) && res0 == nil && (IntRng(v).DeltaMin != 0 || IntRng(v).DeltaMax != 0)
+//@     ==> draws == old(draws) + 1 && lastDraw <= IntRng(v).DeltaMax - IntRng(v).DeltaMin
+//@         && IntVal(v).Value == Clamp(wrap64s(old(IntVal(v).Value) + wrap64s(lastDraw + IntRng(v).DeltaMin)), IntRng(v).Minimum, IntRng(v).Maximum)
+//@   ensures [random-option C20] IsIntList(v) && res0 == nil && IntLst(v).Random ==> draws == old(draws) + 1 && 0 <= lastDraw && lastDraw < old(len(IntLst(v).Options))
+//@     && IntVal(v).Value == IntLst(v).Options[lastDraw] && len(IntLst(v).Options) == old(len(IntLst(v).Options))
+//@     && (forall i int :: 0 <= i && i < len(IntLst(v).Options) ==> IntLst(v).Options[i] == old(IntLst(v).Options[i]))
+//@   ensures [options-in-rotation C20] IsIntList(v) && res0 == nil && !IntLst(v).Random ==> draws == old(draws) && IntVal(v).Value == old(IntLst(v).Options[0])
+//@     && len(IntLst(v).Options) == old(len(IntLst(v).Options)) && IntLst(v).Options[len(IntLst(v).Options) - 1] == old(IntLst(v).Options[0])
+//@   ensures [list-needs-options C20] IsIntList(v) ==> (res0 == nil <==> old(len(IntLst(v).Options)) > 0)
+//@   ensures [constant-without-a-distribution C20] isa(v.v.Value.(*fpb.Value_IntValue)) && old(IntVal(v)) != nil && !isa(IntVal(v).Distribution.(*fpb.IntValue_Range)) && !isa(IntVal(v).Distribution.(*fpb.IntValue_List))
+//@     ==> res0 == nil && IntVal(v).Value == old(IntVal(v).Value) && draws == old(draws)
+//@ pred IntLst(v *value) := v.v.Value.(*fpb.Value_IntValue).IntValue.Distribution.(*fpb.IntValue_List).List
+//@ pred IsIntRange(v *value) := isa(v.v.Value.(*fpb.Value_IntValue)) && IntVal(v) != nil && isa(IntVal(v).Distribution.(*fpb.IntValue_Range))
+//@ pred IsIntList(v *value) := isa(v.v.Value.(*fpb.Value_IntValue)) && IntVal(v) != nil && isa(IntVal(v).Distribution.(*fpb.IntValue_List))
+//@ pred Clamp(x int, lo int, hi int) := ite(x > hi, ite(hi < lo, lo, hi), ite(x < lo, lo, x))
+//@ pred IntRangeOK(v *value) := IntRng(v).Minimum <= IntRng(v).Maximum && IntVal(v).Value >= IntRng(v).Minimum && IntVal(v).Value <= IntRng(v).Maximum
+//@   && (IntRng(v).DeltaMin != 0 || IntRng(v).DeltaMax != 0 ==> IntRng(v).DeltaMin <= IntRng(v).DeltaMax && wrap64s(IntRng(v).DeltaMax - IntRng(v).DeltaMin + 1) > 0)
+//@   && (IntRng(v).DeltaMin == 0 && IntRng(v).DeltaMax == 0 ==> wrap64s(IntRng(v).Maximum - IntRng(v).Minimum + 1) > 0)
 
 //@ func (*value).updateUintValue
 //@   props C20 C12
 //@   arith wrap
 //@   requires ValWf(v)
-//@   modifies v.v.Value.(*fpb.Value_UintValue).UintValue.Value, heap(fpb.UintList.Options), elems(v.v.Value.(*fpb.Value_UintValue).UintValue.Distribution.(*fpb.UintValue_List).List.Options)
+//@   modifies v.v.Value.(*fpb.Value_UintValue).UintValue.Value, heap(fpb.UintList.Options), elems(v.v.Value.(*fpb.Value_UintValue).UintValue.Distribution.(*fpb.UintValue_List).List.Options), ghost draws, ghost lastDraw
 //@   ensures [stays-in-range C20] res0 == nil && isa(v.v.Value.(*fpb.Value_UintValue)) && isa(v.v.Value.(*fpb.Value_UintValue).UintValue.Distribution.(*fpb.UintValue_Range)) ==>
 //@     v.v.Value.(*fpb.Value_UintValue).UintValue.Value >= v.v.Value.(*fpb.Value_UintValue).UintValue.Distribution.(*fpb.UintValue_Range).Range.Minimum
 //@     && v.v.Value.(*fpb.Value_UintValue).UintValue.Value <= v.v.Value.(*fpb.Value_UintValue).UintValue.Distribution.(*fpb.UintValue_Range).Range.Maximum
@@ -69,23 +93,23 @@ package queue
 //@ func (*value).updateDoubleValue
 //@   props C20 C12
 //@   requires ValWf(v)
-//@   modifies v.v.Value.(*fpb.Value_DoubleValue).DoubleValue.Value, heap(fpb.DoubleList.Options), elems(v.v.Value.(*fpb.Value_DoubleValue).DoubleValue.Distribution.(*fpb.DoubleValue_List).List.Options)
+//@   modifies v.v.Value.(*fpb.Value_DoubleValue).DoubleValue.Value, heap(fpb.DoubleList.Options), elems(v.v.Value.(*fpb.Value_DoubleValue).DoubleValue.Distribution.(*fpb.DoubleValue_List).List.Options), ghost draws, ghost lastDraw
 //@ func (*value).updateStringValue
 //@   props C20 C12
 //@   requires ValWf(v)
-//@   modifies v.v.Value.(*fpb.Value_StringValue).StringValue.Value, heap(fpb.StringList.Options), elems(v.v.Value.(*fpb.Value_StringValue).StringValue.Distribution.(*fpb.StringValue_List).List.Options)
+//@   modifies v.v.Value.(*fpb.Value_StringValue).StringValue.Value, heap(fpb.StringList.Options), elems(v.v.Value.(*fpb.Value_StringValue).StringValue.Distribution.(*fpb.StringValue_List).List.Options), ghost draws, ghost lastDraw
 //@ func (*value).updateBoolValue
 //@   props C20 C12
 //@   requires ValWf(v)
-//@   modifies v.v.Value.(*fpb.Value_BoolValue).BoolValue.Value, heap(fpb.BoolList.Options), elems(v.v.Value.(*fpb.Value_BoolValue).BoolValue.Distribution.(*fpb.BoolValue_List).List.Options)
+//@   modifies v.v.Value.(*fpb.Value_BoolValue).BoolValue.Value, heap(fpb.BoolList.Options), elems(v.v.Value.(*fpb.Value_BoolValue).BoolValue.Distribution.(*fpb.BoolValue_List).List.Options), ghost draws, ghost lastDraw
 //@ func (*value).updateStringListValue
 //@   props C20 C12
 //@   requires ValWf(v)
-//@   modifies v.v.Value.(*fpb.Value_StringListValue).StringListValue.Value, heap(fpb.StringList.Options), elems(v.v.Value.(*fpb.Value_StringListValue).StringListValue.Distribution.(*fpb.StringListValue_List).List.Options)
+//@   modifies v.v.Value.(*fpb.Value_StringListValue).StringListValue.Value, heap(fpb.StringList.Options), elems(v.v.Value.(*fpb.Value_StringListValue).StringListValue.Distribution.(*fpb.StringListValue_List).List.Options), ghost draws, ghost lastDraw
 //@ func (*value).updateStringListValue$1
 //@   props C20 C12
 //@   requires 0 <= i && i < len(options) && 0 <= j && j < len(options)
-//@   modifies elems(options)
+//@   modifies elems(options), ghost draws, ghost lastDraw
 
 // The generator that was created with a non-zero seed is seeded with exactly that seed
 // (two queues built from the same configuration and seed draw the same stream).
@@ -110,7 +134,7 @@ package queue
 //@   props C20 C12
 //@   arith wrap
 //@   requires ValWf(v)
-//@   modifies v.v, heap(fpb.Value.Repeat), heap(fpb.Timestamp.Timestamp), heap(fpb.IntValue.Value), heap(fpb.UintValue.Value), heap(fpb.DoubleValue.Value), heap(fpb.StringValue.Value), heap(fpb.BoolValue.Value), heap(fpb.StringListValue.Value),
+//@   modifies v.v, heap(fpb.Value.Repeat), heap(fpb.Timestamp.Timestamp), heap(fpb.IntValue.Value), heap(fpb.UintValue.Value), heap(fpb.DoubleValue.Value), heap(fpb.StringValue.Value), heap(fpb.BoolValue.Value), heap(fpb.StringListValue.Value), ghost draws, ghost lastDraw,
 //@     heap(fpb.IntList.Options), heap(fpb.UintList.Options), heap(fpb.DoubleList.Options), heap(fpb.StringList.Options), heap(fpb.BoolList.Options), heap([]int64), heap([]uint64), heap([]float64), heap([]string), heap([]bool)
 //@   ensures [dropped-after-the-last-repeat C20] old(v.v.Repeat) == 1 ==> v.v == nil && res0 == nil
 //@   ensures [emitted-message-left-alone C20] old(v.v).Repeat == old(v.v.Repeat) && (old(v.v.Timestamp) != nil ==> old(v.v.Timestamp).Timestamp == old(v.v.Timestamp.Timestamp))
@@ -148,6 +172,7 @@ package queue
 //@   modifies u.q, u.latest, v.v.Timestamp, heap([][]*value), heap([]*value)
 //@   invariant 0: 0 <= l && l <= r && r <= len(u.q) && u.q == old(u.q) && BucketsWf(u) && Ascending(u) && OwnArrays(u) && Distinct(u) && NotQueued(u, v) && (forall i int :: 0 <= i && i < len(u.q) ==> TS(u.q[i][0]) <= u.latest) && u.latest >= t && v.v.Timestamp != nil && t == TS(v)
 //@     && (forall i int :: 0 <= i && i < l ==> TS(u.q[i][0]) < t) && (forall i int :: r <= i && i < len(u.q) ==> TS(u.q[i][0]) > t)
+//@   decreases 0: [search-interval-shrinks C20] r - l
 //@   assert at builtin append#0: [new-bucket-at-the-sorted-position C20] l == r && (forall i int :: 0 <= i && i < r ==> TS(u.q[i][0]) < t) && (forall i int :: r <= i && i < len(u.q) ==> TS(u.q[i][0]) > t)
 //@   assert at builtin append#2: [joins-the-bucket-of-its-timestamp C20] 0 <= i && i < len(u.q) && TS(u.q[i][0]) == t
 //@   ensures [buckets-wf C20] BucketsWf(u)
@@ -172,7 +197,7 @@ package queue
 //@   assert at call (*UpdateQueue).addValue#0: [only-the-emitted-generator-was-removed C20] Popped(u) && arg1 == old(u.q[0][0])
 //@   arith wrap
 //@   requires QInv(u)
-//@   modifies u.q, u.latest, u.duration, heap(value.v), heap(fpb.Value.Timestamp), heap([][]*value), heap([]*value), heap(fpb.Value.Repeat), heap(fpb.Timestamp.Timestamp), heap(fpb.IntValue.Value), heap(fpb.UintValue.Value), heap(fpb.DoubleValue.Value),
+//@   modifies u.q, u.latest, u.duration, heap(value.v), heap(fpb.Value.Timestamp), heap([][]*value), heap([]*value), heap(fpb.Value.Repeat), heap(fpb.Timestamp.Timestamp), heap(fpb.IntValue.Value), heap(fpb.UintValue.Value), heap(fpb.DoubleValue.Value), ghost draws, ghost lastDraw,
 //@     heap(fpb.StringValue.Value), heap(fpb.BoolValue.Value), heap(fpb.StringListValue.Value), heap(fpb.IntList.Options), heap(fpb.UintList.Options), heap(fpb.DoubleList.Options), heap(fpb.StringList.Options), heap(fpb.BoolList.Options),
 //@     heap([]int64), heap([]uint64), heap([]float64), heap([]string), heap([]bool)
 //@   ensures [queue-stays-ordered C20] res1 == nil ==> QInv(u)
